@@ -1,6 +1,7 @@
 package props
 
 import (
+	"strings"
 	"bytes"
 	"io"
 	"testing"
@@ -26,6 +27,10 @@ func (e eagerEOFReaderAt) ReadAt(p []byte, off int64) (int, error) {
 
 type ArCase struct {
 	EagerEOF bool       `json:"eagerEOF,omitempty"` // read through eagerEOFReaderAt instead of bytes.Reader
+	// Used: 0 = a fresh bytes.Reader; 1 = a bytes.Reader some of which was already Read (a caller
+	// sniffing the magic); 2 = one that was read to its end (hashed); 3 = a strings.Reader seeked
+	// into the middle. ReadAt does not care where the Read position stands.
+	Used    int        `json:"used,omitempty"`
 	Members []ArMember `json:"members"`
 	Half    int        `json:"half"` // member read half-way before the iterator advances
 	Offs    []int      `json:"offs"` // ReadAt probe offsets (taken modulo the member size)
@@ -57,6 +62,9 @@ func genArCase(t *rapid.T) ArCase {
 	}
 	c.Offs = rapid.SliceOfN(rapid.IntRange(0, 9000), 1, 4).Draw(t, "offs")
 	c.EagerEOF = rapid.IntRange(0, 3).Draw(t, "eagerEOF") == 0
+	if !c.EagerEOF {
+		c.Used = rapid.SampledFrom([]int{0, 0, 0, 1, 2, 3}).Draw(t, "used")
+	}
 	return c
 }
 
@@ -132,6 +140,23 @@ var specC13 = Register(&Spec[ArCase]{
 			r.Sample(names)
 		}
 		var shared io.ReaderAt = bytes.NewReader(raw)
+		switch c.Used {
+		case 1:
+			br := bytes.NewReader(raw)
+			io.CopyN(io.Discard, br, 8)
+			shared = br
+			r.Count("reader-partly-read", 1)
+		case 2:
+			br := bytes.NewReader(raw)
+			io.Copy(io.Discard, br)
+			shared = br
+			r.Count("reader-read-to-end", 1)
+		case 3:
+			sr := strings.NewReader(string(raw))
+			sr.Seek(int64(len(raw)/2), io.SeekStart)
+			shared = sr
+			r.Count("reader-seeked", 1)
+		}
 		if c.EagerEOF {
 			shared = eagerEOFReaderAt{raw}
 			cl = append(cl, "eager-eof-readerat")
